@@ -58,18 +58,23 @@ static Outcome runIniCase(const vj::Value& c)
 	std::vector<Entry> sets = entries(c["sets"]), exp = entries(c["exp"]);
 	Outcome res;
 	res.nontrivial = !sets.empty();
-	for (int how = 0; how < 3; how++)
+	// quick tier (C18_HALF set): two of the four ways of writing per case, chosen by a hash of the case
+	bool half = getenv("C18_HALF") != 0;
+	unsigned pick = (unsigned)(vrun::fnv(text) >> 7) & 1;
+	for (int how = 0; how < 4; how++)
 	{
+		if (half && ((unsigned)how & 1) != pick) continue;
 		std::string path = pathFor("ini");
 		IniResult r = runIni(path, text, sets, exp, how);
 		unlink(path.c_str());
 		logLine(iniEvent(text, sets, r, how));
-		const char* hows[] = { "write()+destructor", "destructor", "operator[]=+destructor" };
-		if (!r.problem.empty()) return Outcome::fail(std::string("ini/") + hows[how] + ": " + r.problem);
-		for (size_t i = 0; i < exp.size(); i++)
+		const char* hows[] = { "write()+destructor", "destructor", "operator[]=+destructor", "write(name)+destructor" };
+		if (r.problem.compare(0, 8, "harness:") == 0) return Outcome::fail(r.problem);
+		for (size_t i = 0; i < exp.size() && i < r.got.size(); i++)
 			if (r.got[i].val != exp[i].val)
 				return Outcome::fail(std::string("ini/") + hows[how] + ": a fresh IniFile returns " + vj::quote(r.got[i].val) + " for " + nameOf(exp[i]) +
 				                     ", specification says " + vj::quote(exp[i].val) + "; file after the edit: " + vj::quote(r.w.substr(0, 300)));
+		if (!r.problem.empty()) return Outcome::fail(std::string("ini/") + hows[how] + ": " + r.problem);
 	}
 	return res;
 }
@@ -95,6 +100,7 @@ static Outcome runCsvCase(const vj::Value& c)
 	std::string why;
 	for (int variant = 0; variant < 4; variant++)
 	{
+		if (getenv("C18_HALF") && ((unsigned)variant & 1) != ((unsigned)(vrun::fnv(c["file"].bytes()) >> 7) & 1)) continue;
 		std::string path = pathFor("csv") + ".csv";
 		CsvResult r = runCsv(path, cols, rows, variant);
 		unlink(path.c_str());
